@@ -11,10 +11,26 @@
 (* re-created file, i.e. the side condition "the new file is still shorter      *)
 (* than what was already delivered when the poller notices it" in its exact     *)
 (* form; Follow.tla's `dom` is the observable (angelic) form, dom => domP.      *)
+(*                                                                              *)
+(* The reader holds ONE handle: `f` is the file it refers to, `pos` its offset  *)
+(* (what the kernel keeps), `readBytes` is the reader's own count.  The re-open *)
+(* block replaces the handle; a freshly opened handle stands at offset 0, and   *)
+(* the constant `Resume` says where the handle that is read from NEXT ends up   *)
+(* when the poller decides "existing file, continue where we left off":         *)
+(*   "readBytes"  Seek(readBytes) reaches the new handle (poller.go as written) *)
+(*   "none"       it does not (seek issued on the handle being replaced, seek   *)
+(*                dropped, error swallowed): the new handle stays at 0          *)
+(*   "size"       the new handle is put at the size the stat reported           *)
+(* Only "readBytes" keeps HandleOK (the count IS the offset of the handle) and  *)
+(* with it exactly-once delivery on a file that merely grew between the last    *)
+(* read attempt of a round and the stat - a file that STAYS IN PLACE takes the  *)
+(* re-open branch too; the other two are negative controls.                     *)
 EXTENDS Bytes, TLC
 
 CONSTANTS Reopen, TailMode, InitLen, AppLens, MaxAppends, MaxRemoves, MaxCreates,
-          BufSize, ReadAttempts
+          BufSize, ReadAttempts, Resume
+
+ASSUME Resume \in {"readBytes", "none", "size"}
 
 VARIABLES mode, files, cur, start, delivered, ended, fresh, dom,   \* Follow.tla
           f, pos, readBytes, att, pc, stSize,                      \* reader
@@ -94,12 +110,17 @@ PStat ==
        /\ UNCHANGED <<stSize, seen, domP>>
   /\ UNCHANGED <<mode, files, cur, start, delivered, fresh, dom, readBytes, att, nA, nR, nC, nb>>
 
-\* s.f, _ = os.Open(s.filename); then Seek(readBytes) or restart
+\* offset of the handle that is read from next, in the "continue where we left off" branch
+ResumePos == CASE Resume = "readBytes" -> readBytes
+               [] Resume = "none"      -> 0
+               [] Resume = "size"      -> stSize
+
+\* s.f, _ = os.Open(s.filename) (a new handle, offset 0); then Seek(readBytes) or restart
 POpen ==
   /\ pc = "open"
   /\ f' = cur
   /\ IF stSize >= readBytes
-     THEN pos' = (IF cur = 0 THEN 0 ELSE readBytes) /\ UNCHANGED readBytes
+     THEN pos' = (IF cur = 0 THEN 0 ELSE ResumePos) /\ UNCHANGED readBytes
      ELSE pos' = 0 /\ readBytes' = 0
   /\ pc' = "read"
   /\ UNCHANGED <<mode, files, cur, start, delivered, ended, fresh, dom, att, stSize, seen, domP, nA, nR, nC, nb>>
@@ -112,6 +133,15 @@ Spec == Init /\ [][Next]_vars /\ WF_vars(Reader)
 TypeOK ==
   /\ f \in 0..Len(files) /\ cur \in 0..Len(files) /\ pos >= 0 /\ readBytes >= 0
   /\ pc \in {"read", "stat", "open", "done"} /\ att \in 0..ReadAttempts
+\* the reader's count is the offset of the handle it reads from (what makes "seek to readBytes"
+\* and "size # readBytes means something new" sound)
+HandleOK == f # 0 => pos = readBytes
+\* a file that stays in place (no removal so far): what was delivered is exactly what lies between
+\* the starting position and the handle's offset, whatever the timing of the appends was
+InPlaceExact == (cur = 1 /\ f = 1) => delivered = SubSeq(files[1], start + 1, pos)
+\* the re-open branch was taken on the file that is still the one being read (coverage of the
+\* "grew between the last read attempt and the stat" window: must be reachable, see the cfgs)
+NeverReopensInPlace == ~(pc = "open" /\ f = cur /\ cur = 1)
 \* observable form (what trace validation and the replay use)
 PrefixOK   == A!PrefixOK
 NoEarlyEnd == A!NoEarlyEnd
